@@ -103,6 +103,7 @@ func (vc *FuncVC) execCall(st *State, reach Term, ins *ssa.Call) {
 	rt := ins.Type()
 	if common.IsInvoke() {
 		vc.note("interface method call %s modelled as pure with unconstrained result at %s", common.Method.Name(), vc.pos(ins.Pos()))
+		vc.bigWrites++ // an unknown method: a by-value BigInt copy in this function is not provably read-only
 		vc.vals[ins] = vc.freshVal("invoke", rt)
 		return
 	}
@@ -139,6 +140,7 @@ func (vc *FuncVC) execCall(st *State, reach Term, ins *ssa.Call) {
 
 // havocAll forgets the whole heap (call to code without a contract).
 func (vc *FuncVC) havocAll(st *State) {
+	vc.bigWrites++
 	var ks []string
 	for k := range vc.keys {
 		ks = append(ks, k)
@@ -256,6 +258,7 @@ func (vc *FuncVC) execLibrary(st *State, reach Term, ins *ssa.Call, callee *ssa.
 }
 
 func (vc *FuncVC) libHavoc(name string) {
+	vc.bigWrites++ // an unknown library function: not provably read-only for a by-value BigInt copy
 	for _, n := range vc.notes {
 		if n == "library:"+name {
 			return
